@@ -245,9 +245,17 @@ def perturbations(x):
         yield "key", rebuild(x, key=x.key + "x")
         yield "value", rebuild(x, value=str(x.value) + "x")
         yield "start_line", rebuild(x, start_line=(x.start_line or 0) + 1)
+        if x.start_line is not None:
+            yield "start_line-to-None", rebuild(x, start_line=None)
+        if x.value != "":
+            yield "value-to-empty", rebuild(x, value="")
         return
     yield "start_line", rebuild(x, start_line=(x.start_line or 0) + 1)
     yield "raw", rebuild(x, raw=(x.raw or "") + " ")
+    # towards 'absent' and falsy values: an unknown raw text / line is content too (seed C19-k)
+    for name, val in (("raw", None), ("raw", ""), ("start_line", None), ("start_line", 0), ("start_line", -1)):
+        if getattr(x, name) != val or (getattr(x, name) is None) != (val is None) or type(getattr(x, name)) is not type(val):
+            yield name + "-to-" + repr(val), rebuild(x, **{name: val})
     md = dict(x.parser_metadata)
     md["__extra__"] = 1
     yield "metadata-added", rebuild(x, metadata=md)
